@@ -45,6 +45,13 @@ def view_cases(rng):
     other_cls = rng.choice([ValueError, ValueError, KeyError, LookupError, RuntimeError, ZeroDivisionError, TypeError, AttributeError])
     # optionally a batch stage between the failing map and the prefetch (the pool path builds batches by index)
     bs = rng.choice([None, None, 1, 2, 3])
+    # optionally the failing map sits in the parts of a concatenation (the pool path walks the parts by index); without
+    # a batch stage the unselected exception may then be an IndexError of the example itself
+    split_at = rng.choice([None, None, rng.randint(0, n)])
+    if bs is None and rng.random() < 0.35:
+        class ExampleIndexError(IndexError):
+            pass
+        other_cls = rng.choice([IndexError, ExampleIndexError])
 
     def f(x):
         if x == other:
@@ -66,7 +73,7 @@ def view_cases(rng):
                 if issubclass(other_cls, caught):
                     dropped = True
                     break
-                want_err = other_cls.__name__
+                want_err = {'ExampleIndexError': 'ExampleIndexError'}.get(other_cls.__name__, other_cls.__name__)
                 break
             if x in bad:
                 if issubclass(cls_of[kinds[x]], caught):
@@ -83,7 +90,11 @@ def view_cases(rng):
     src = {f'k{j}': j for j in range(n)} if keyed else list(range(n))
 
     def mk():
-        d = lazy_dataset.new(src).map(f)
+        if split_at is None:
+            d = lazy_dataset.new(src).map(f)
+        else:
+            parts = [dict(list(src.items())[:split_at]), dict(list(src.items())[split_at:])] if keyed else [src[:split_at], src[split_at:]]
+            d = lazy_dataset.concatenate(*[lazy_dataset.new(p_).map(f) for p_ in parts])
         if bs:
             d = d.batch(bs)
         return d.prefetch(w, b, catch_filter_exception=sel)
@@ -109,7 +120,7 @@ def view_cases(rng):
             got = stream(mkv)
             if got != {'vals': want_vals, 'err': want_err}:
                 fails.append(('catch_filter_exception_view', {'view': name, 'n': n, 'raising_selected': sorted(bad), 'raising_other': other,
-                                                               'workers': w, 'buffer': b, 'selection': repr(sel), 'keyed': keyed, 'other_class': other_cls.__name__, 'batch': bs,
+                                                               'workers': w, 'buffer': b, 'selection': repr(sel), 'keyed': keyed, 'other_class': other_cls.__name__, 'batch': bs, 'concatenated_at': split_at,
                                                                'got': got, 'serial_reference': {'vals': want_vals, 'err': want_err}}))
                 break
     return fails
